@@ -434,6 +434,34 @@ Section PoolProofs.
     induction 1 as [|k s s' s'' St _ IH]; [ lia | ].
     apply step_decreases in St. lia.
   Qed.
+  (* ---------------------------------------------------------------- every run can be completed *)
+  Definition terminal_dec (s : state) : {terminal s} + {~ terminal s}.
+  Proof.
+    unfold terminal. destruct s as [td se q c ws o sc sd lg]; cbn [todo closed queue workers].
+    destruct td; [ | right; intros (H & _); discriminate ].
+    destruct c; [ | right; intros (_ & H & _); discriminate ].
+    destruct q; [ | right; intros (_ & _ & H & _); discriminate ].
+    destruct (all_exited_dec ws) as [A | NA]; [ left; auto | right; intros (_ & _ & _ & H); auto ].
+  Defined.
+
+  Lemma reachable_run s k s' : reachable s -> run k s s' -> reachable s'.
+  Proof. intros R Hr. induction Hr; auto. apply IHHr. eapply ReachStep; eauto. Qed.
+
+  (* from every reachable state some finite run ends in a terminal state; with run_bounded (all
+     runs are finite) and progress (only terminal states are stuck): every maximal run of the pool
+     is finite and ends with the process exiting *)
+  Theorem completes s : 0 < n -> 0 < cap -> reachable s -> exists k s', run k s s' /\ terminal s'.
+  Proof.
+    intros Hn Hc. remember (measure s) as m eqn:Em. revert s Em.
+    induction m as [m IH] using lt_wf_ind. intros s Em R.
+    destruct (terminal_dec s) as [T | NT].
+    - exists 0, s. split; [ constructor | exact T ].
+    - destruct (progress s Hn Hc R NT) as [s1 St].
+      pose proof (step_decreases _ _ St) as Hd.
+      destruct (IH (measure s1)) with (s := s1) as (k & s' & Hr & T); try lia; auto.
+      { eapply ReachStep; eauto. }
+      exists (S k), s'. split; [ econstructor; eauto | exact T ].
+  Qed.
 End PoolProofs.
 
 (* ------------------------------------------------------------------ a concrete run (non-vacuity) *)
